@@ -23,6 +23,15 @@ import (
 
 func itoa(n int) string { return fmt.Sprint(n) }
 
+// rng0: deterministic choice in 0..n-1 that does not consume the run's PRNG (it is called from
+// parallel workers): which of the blocks a batch flushes gets the header-rewrite fault.
+func rng0(i, k, n int) int {
+	if n <= 1 {
+		return 0
+	}
+	return int((uint64(i)*2654435761 + uint64(k)*40503 + 12345) % uint64(n))
+}
+
 type flushInfo struct {
 	step  int
 	total int64 // 16 + payload size in the fault-free run
@@ -92,8 +101,9 @@ func main() {
 		defer os.RemoveAll(dir)
 		s := scripts[i]
 		s.Steps = append([]lib.Step{}, s.Steps...)
-		sizes, res := lib.RunInProc(dir, &s)
+		sizes, blocks, res := lib.RunInProcBlocks(dir, &s)
 		prev := int64(lib.FH + s.NLen())
+		prevBlocks := 0
 		sysc[i] = make([]sysInfo, len(s.Steps))
 		npw, nfs := 0, 0
 		for k := range s.Steps {
@@ -102,9 +112,14 @@ func main() {
 			}
 			if g := sizes[k] - prev; g > lib.BH {
 				flushes[i] = append(flushes[i], flushInfo{k, g})
-				npw++
-				sysc[i][k].flushHdr = npw
+				nb := blocks[k] - prevBlocks // a batch can flush several blocks in one call
+				if nb < 1 {
+					nb = 1
+				}
+				sysc[i][k].flushHdr = npw + 1 + rng0(i, k, nb)
+				npw += nb
 			}
+			prevBlocks = blocks[k]
 			if s.Steps[k].K == lib.KSync || s.Steps[k].K == lib.KClose {
 				npw++
 				nfs++
